@@ -1024,6 +1024,73 @@ Qed.
 
 End Model.
 
+(** * The contract of the root finder is satisfiable
+*)
+(** a root finder that satisfies the contract for every function: plain bisection *)
+Fixpoint bisect (W : Q -> Q) (n : nat) (a b : Q) : Q * Q :=
+  match n with
+  | O => (a, b)
+  | S m => let mid := (a + b) / 2 in
+           if Qle_bool (W mid) 0 then bisect W m mid b else bisect W m a mid
+  end.
+
+Lemma bisect_spec W : forall n a b, a <= b -> W a <= 0 -> 0 <= W b ->
+  let '(lo, hi) := bisect W n a b in
+  a <= lo /\ lo <= hi /\ hi <= b /\ W lo <= 0 /\ 0 <= W hi /\ (hi - lo) * pow2 n == b - a.
+Proof.
+  induction n as [|n IH]; intros a b Hab Ha Hb; cbn [bisect pow2].
+  - repeat split; try lra.
+  - destruct (Qle_bool (W ((a + b) / 2)) 0) eqn:E.
+    + apply Qle_bool_iff in E.
+      assert (Hm : (a + b) / 2 <= b) by (apply Qle_shift_div_r; lra).
+      assert (Hm' : a <= (a + b) / 2) by (apply Qle_shift_div_l; lra).
+      specialize (IH ((a + b) / 2) b Hm E Hb).
+      destruct (bisect W n ((a + b) / 2) b) as [lo hi].
+      destruct IH as [A [B [C [D [F G]]]]]. repeat split; try lra.
+      setoid_replace ((hi - lo) * (pow2 n * 2)) with (((hi - lo) * pow2 n) * 2) by ring.
+      rewrite G. field.
+    + apply Qleb_false in E.
+      assert (Hm : (a + b) / 2 <= b) by (apply Qle_shift_div_r; lra).
+      assert (Hm' : a <= (a + b) / 2) by (apply Qle_shift_div_l; lra).
+      assert (E' : 0 <= W ((a + b) / 2)) by lra.
+      specialize (IH a ((a + b) / 2) Hm' Ha E').
+      destruct (bisect W n a ((a + b) / 2)) as [lo hi].
+      destruct IH as [A [B [C [D [F G]]]]]. repeat split; try lra.
+      setoid_replace ((hi - lo) * (pow2 n * 2)) with (((hi - lo) * pow2 n) * 2) by ring.
+      rewrite G. field.
+Qed.
+
+Definition bisect_rf (W : Q -> Q) (a b xtol : Q) : rfOut :=
+  if Qle_bool xtol 0 then mkRf a false []
+  else let '(lo, hi) := bisect W (S (fuel_for xtol (b - a))) a b in mkRf lo true [].
+
+Theorem bisect_contract : rootfind_contract bisect_rf.
+Proof.
+  intros W a b xtol Hab Ha Hb. unfold bisect_rf, brentq_spec.
+  destruct (Qle_bool xtol 0) eqn:E.
+  - cbn. split; [lra|]. split; [lra|]. discriminate.
+  - apply Qleb_false in E.
+    pose proof (bisect_spec W (S (fuel_for xtol (b - a))) a b (Qlt_le_weak _ _ Hab) Ha Hb) as H.
+    destruct (bisect W (S (fuel_for xtol (b - a))) a b) as [lo hi].
+    destruct H as [A [B [C [D [F G]]]]]. cbn [rf_root rf_converged].
+    split; [exact A|]. split; [lra|]. intros _.
+    exists lo, hi. repeat split; try lra.
+    pose proof (fuel_for_enough xtol (b - a) E) as HF.
+    cbn [pow2] in G.
+    assert (Hp : 0 < pow2 (fuel_for xtol (b - a))) by apply pow2_pos.
+    assert (Hr : 0 <= brentq_rtol * Qabs lo).
+    { apply Qmult_le_0_compat; [discriminate|apply Qabs_nonneg]. }
+    assert (Hlt : hi - lo < xtol); [|lra].
+    apply Qnot_le_lt. intro L.
+    set (p := pow2 (fuel_for xtol (b - a))) in *.
+    assert (K1 : xtol * (p * 2) <= (hi - lo) * (p * 2)).
+    { apply Qmult_le_compat_r; lra. }
+    assert (K3 : 0 < xtol * p) by (apply Qmult_lt_0_compat; assumption).
+    assert (K2 : xtol * (p * 2) == (xtol * p) * 2) by ring.
+    set (T := xtol * p) in *. set (U := xtol * (p * 2)) in *.
+    set (V := (hi - lo) * (p * 2)) in *. lra.
+Qed.
+
 (** * Executable instance used by the correspondence harness
     Synthetic pressure curves: piecewise-linear in the velocity with per-segment outputs and
     flags; the flags may differ between the bracketing phase (pressAbsErrTol = first literal)
